@@ -183,6 +183,8 @@ pub struct RawGenOpts {
     /// some polygons (and outlines) repeat their first vertex at the end; only for conversions that
     /// must keep the point list as it is (GDS closes boundaries itself, so not there)
     pub closed_polygons: bool,
+    /// with `abstracts`: may some cells have an abstract and no layout at all?
+    pub abs_only_cells: bool,
 }
 fn maybe_close(src: &mut Src, o: &RawGenOpts, g: RGeom) -> RGeom {
     match g {
@@ -367,7 +369,7 @@ pub fn gen_rawlib(src: &mut Src, o: &RawGenOpts) -> RLib {
     let nc = src.usize_in(1, o.max_cells);
     let mut cells: Vec<RCell> = vec![];
     for ci in 0..nc {
-        let abs_only = o.abstracts && ci > 0 && src.prob(1, 6);
+        let abs_only = o.abstracts && o.abs_only_cells && ci > 0 && src.prob(1, 6);
         let has_layout = !abs_only;
         let mut shapes = vec![];
         let mut insts = vec![];
